@@ -51,13 +51,14 @@ PathOK(p, x) ==
   CASE x[1] = 18 /\ x[3] = 0 -> p[1] = 16                                   \* AcqW . AddRead
     [] x[1] = 18 /\ x[3] = 1 -> p[1] = 18 /\ p[3] = 0                       \* AddWrite
     [] x[1] = 17 -> p[1] = 18 /\ p[3] = 1                                   \* RelW
-    [] x[1] = 16 -> p[1] \in {10, 17, 25, 7}                                \* next raw relation of the polynomial
+    [] x[1] \in {16, 30} -> p[1] \in {10, 17, 25, 7, 30}                    \* next raw relation of the polynomial
     [] x[1] = 12 -> p[1] = 11                                               \* ReadLen . LoadTarget . ReadGap
     [] x[1] = 13 -> p[1] = 12 /\ p[4] = x[4]                                \* StoreGap stores what ReadGap read
-    [] x[1] = 14 -> (p[1] = 13 /\ p[4] = 0) \/ (p[1] = 12 /\ p[4] = 0 /\ x[3] = 2)   \* StoreDone only after gap = 0
+    [] x[1] = 14 -> \/ (p[1] = 13 /\ p[4] = 0) \/ (p[1] = 12 /\ p[4] = 0 /\ x[3] = 2)  \* StoreDone only after gap = 0
+                    \/ (x[3] = 4 /\ p[1] = 7)                                \* ECM: a curve found a factor
     [] x[1] = 15 -> (p[1] = 13 /\ p[4] # 0) \/ (p[1] = 12 /\ p[4] # 0 /\ x[3] = 2)   \* StoreTarget only after gap # 0
     [] x[1] = 7  -> (p[1] = 6 /\ p[4] = 0) \/ p[1] = 3                      \* UnitStart after a poll that returned false
-    [] x[1] = 4  -> p[1] \in {3, 5, 24} \/ (p[1] = 6 /\ p[4] = 1)           \* skip: gap 0 | done | abort
+    [] x[1] = 4  -> p[1] \in {3, 5, 24, 14} \/ (p[1] = 6 /\ p[4] = 1)       \* skip: gap 0 | done (read or just stored) | abort
     [] x[1] = 21 -> p[1] = 20                                               \* Finalize
     [] OTHER -> TRUE
 
@@ -66,7 +67,7 @@ Step(s, x) ==
       p == Prev(s, t)
       c == x[1]
       heldRead == (c = 11 /\ x[5] = 1) \/ (c = 12 /\ x[3] \in {1, 3})
-      strict == (IF c = 18 /\ x[3] = 0 /\ s.inAdd # 0 THEN {"writer_overlap"} ELSE {})
+      strict == (IF (c = 30 \/ (c = 18 /\ x[3] = 0)) /\ s.inAdd # 0 THEN {"writer_overlap"} ELSE {})
                 \cup (IF c = 18 /\ x[3] = 1 /\ s.inAdd # t THEN {"writer_overlap"} ELSE {})
                 \cup (IF heldRead /\ s.inAdd # 0 THEN {"reader_in_writer"} ELSE {})
       needDone == c = 24 \/ (c = 9 /\ (x[3] = 1 \/ p[1] = 24)) \/ (c = 4 /\ x[4] = 2 /\ p[1] = 5)
@@ -77,11 +78,12 @@ Step(s, x) ==
                \cup (IF c = 20 /\ s.cyc >= 0 /\ s.cyc # x[4] THEN {"lost_insert"} ELSE {})
   IN [s EXCEPT
         !.inAdd = IF c = 18 THEN (IF x[3] = 0 THEN t ELSE 0) ELSE @,
-        !.reqs = IF c = 16 THEN @ + 1 ELSE @,
-        !.enters = IF c = 18 /\ x[3] = 0 THEN @ + 1 ELSE @,
-        !.exits = IF c = 18 /\ x[3] = 1 THEN @ + 1 ELSE @,
-        !.rels = IF c = 17 THEN @ + 1 ELSE @,
-        !.cyc = IF c = 18 /\ x[3] = 1 THEN x[4] ELSE IF c = 1 THEN -1 ELSE @,
+        \* entry 30 = x[4] whole uncontended insertions (w_req, enter, exit, w_rel) of thread t, folded by the driver
+        !.reqs = IF c = 16 THEN @ + 1 ELSE IF c = 30 THEN @ + x[4] ELSE @,
+        !.enters = IF c = 18 /\ x[3] = 0 THEN @ + 1 ELSE IF c = 30 THEN @ + x[4] ELSE @,
+        !.exits = IF c = 18 /\ x[3] = 1 THEN @ + 1 ELSE IF c = 30 THEN @ + x[4] ELSE @,
+        !.rels = IF c = 17 THEN @ + 1 ELSE IF c = 30 THEN @ + x[4] ELSE @,
+        !.cyc = IF c = 18 /\ x[3] = 1 THEN x[4] ELSE IF c = 30 THEN x[3] ELSE IF c = 1 THEN -1 ELSE @,
         !.doneSt = IF c = 14 THEN TRUE ELSE IF c = 1 THEN FALSE ELSE @,
         !.gap0St = IF c = 13 /\ x[4] = 0 THEN TRUE ELSE IF c = 1 THEN FALSE ELSE @,
         !.stale = @ \/ (c = 21 /\ x[3] # 0 /\ s.gap0St),
@@ -120,7 +122,7 @@ JudgeRun(i, e) ==
   /\ Drift(i, "thin_air", "thin_air" \notin f.dr)
   /\ Drift(i, "lost_insert", "lost_insert" \notin f.dr /\
                              (returns => (f.reqs = f.enters /\ f.enters = f.exits /\ f.exits = f.rels)))
-  /\ (f.stale => Note(i, "stale_gap_at_finalize", e.run))
+  /\ (f.stale => Note(i, "stale_gap_at_finalize", e.threads))
 
 Init == l = 1 /\ inp = <<>> /\ base = <<>>
 
